@@ -49,11 +49,15 @@ def _gen(a):
     case["arm"] = arm
     case["run"] = i
     case["run_seed"] = run_seed
+    # process environment of the run (seeded; part of the case): a quarter of the runs have logging enabled at DEBUG, an eighth at WARNING
+    e = core.derive(run_seed, "env") % 8
+    case.setdefault("env", {"logging": "debug" if e in (0, 1) else ("warning" if e == 2 else "off")})
     return case
 
 
 def _exec(a):
     chk, case = a
+    core.apply_env(case.get("env"))
     res = chk.execute(case)
     return res
 
@@ -61,7 +65,10 @@ def _exec(a):
 def _gen_exec(a):
     chk, arm, i, run_seed, tier, want_sample, verif_seed = a
     case = _gen((chk, arm, i, run_seed, tier, verif_seed))
+    core.apply_env(case.get("env"))
     res = chk.execute(case)
+    res.fault("env_logging_" + case["env"]["logging"], 0 if case["env"]["logging"] == "off" else 1)
+    res["faults"] = {k: v for k, v in res["faults"].items() if v}
     if res["viol"]:
         res["case"] = chk.resolve(case, res)
     if want_sample:
